@@ -478,35 +478,71 @@ theorem flow_from_packet_exact_full (p : PHdr) (port : Nat) (hr : regularG false
 /-! ## from the bytes of a frame
 
 `Spec.Frame.parse` is the standard-side reading of a byte sequence (Ethernet II / 802.2 SNAP, the one 802.1Q tag type 0x8100, IPv4 with
-its flag bits and IHL, ARP, TCP / UDP / ICMP).  A complete frame's description is regular, so every clause above holds with the
-*bytes* as input. -/
+its flag bits and IHL, ARP, TCP — ports whatever the option area holds — / UDP / ICMP).  A complete frame's description is regular
+(`frame_complete_regular`), so the clauses above can be instantiated at it.
+
+**What the `_bytes_` theorems say and what they do not.**  They are the extraction / matching / lookup clauses at `p :=` the description
+`Spec.Frame.parse` gives for `fr`; `fr` occurs in them only through the hypothesis `Spec.Frame.parse fr = some (p, true)`, which
+discharges `regularG false p`.  They do *not* say that the code, given the bytes `fr`, behaves like the model given `p`: the code's own
+path from bytes to packet objects (`pox.lib.packet`) is not modelled here.  That link is made by the harness on every case — the real
+code receives the bytes, the driver parses the same bytes with `Spec.Frame.parse` and gives the model that description, and extracted
+fields, match results and lookups of the two are compared (and both are held to `Spec.headers` of that description). -/
 
 /-- complete frames meet the side condition of the extraction / lookup theorems -/
 theorem frame_complete_regular (fr : List Nat) (p : PHdr) (h : Spec.Frame.parse fr = some (p, true)) : regularG false p = true :=
   Spec.Frame.parse_regular fr p h
 
-/-- **Extraction from bytes**, the code as it stands -/
+/-- on complete frames the guard of C03-K7 changes nothing: `Variant.current` extracts what `Variant.full` extracts -/
+theorem current_eq_full_regular (sf : Bool) (p : PHdr) (ip : Option Nat) (hr : regularG false p = true) :
+    Variant.current.pktHeaders sf p ip = Variant.full.pktHeaders sf p ip := by
+  rw [Variant.pktHeaders_eq _ rfl, Variant.pktHeaders_eq _ rfl, Variant.guardP_regular _ _ p hr, Variant.guardP_off _ rfl]
+  rfl
+
+/-- **Extraction** at the description of a complete frame — `/repo` HEAD (`extract_ok_current` at `p`; see the section note) -/
+theorem extract_ok_bytes_current (fr : List Nat) (p : PHdr) (port : Nat) (h : Spec.Frame.parse fr = some (p, true)) :
+    ExtractOk (Variant.maskP p) (Variant.current.pktHeaders true p (some port)) (Spec.headers p port) ∧
+    ∀ t, (Variant.current.pktHeaders true p (some port)).nwTos = some t → t % 4 = 0 :=
+  extract_ok_current p port (frame_complete_regular fr p h)
+
+/-- **Matching** at the description of a complete frame — `/repo` HEAD -/
+theorem matches_iff_bytes_current (r : OfMatch) (fr : List Nat) (p : PHdr) (port : Nat) (h : Spec.Frame.parse fr = some (p, true)) :
+    Variant.current.mww false (Variant.current.ofWire r) (Variant.current.pktMatch p port) = Spec.matchHdr r (Spec.headers p port) :=
+  matches_iff_current r p port (frame_complete_regular fr p h)
+
+/-- **Lookup** at the description of a complete frame — `/repo` HEAD -/
+theorem lookup_spec_bytes_current (fs : List Spec.Flow) (hfs : ∀ f ∈ fs, f.priority ≤ 0xffff)
+    (fr : List Nat) (p : PHdr) (port : Nat) (h : Spec.Frame.parse fr = some (p, true)) :
+    Spec.IsBestSig fs (Spec.headers p port) ((Variant.current.entryForPacket (Variant.current.install fs) p port).map (·.data)) :=
+  lookup_spec_wire_current fs hfs p port (frame_complete_regular fr p h)
+
+/-- extraction at the description of a complete frame — superseded tree `Variant.full` -/
+theorem extract_ok_bytes_full (fr : List Nat) (p : PHdr) (port : Nat) (h : Spec.Frame.parse fr = some (p, true)) :
+    ExtractOk (Variant.maskP p) (Variant.full.pktHeaders true p (some port)) (Spec.headers p port) ∧
+    ∀ t, (Variant.full.pktHeaders true p (some port)).nwTos = some t → t % 4 = 0 :=
+  extract_ok_full p port (frame_complete_regular fr p h)
+
+/-- matching at the description of a complete frame — superseded tree `Variant.full` -/
+theorem matches_iff_bytes_full (r : OfMatch) (fr : List Nat) (p : PHdr) (port : Nat) (h : Spec.Frame.parse fr = some (p, true)) :
+    Variant.full.mww false (Variant.full.ofWire r) (Variant.full.pktMatch p port) = Spec.matchHdr r (Spec.headers p port) :=
+  matches_iff_full r p port (frame_complete_regular fr p h)
+
+/-- lookup at the description of a complete frame — superseded tree `Variant.full` -/
+theorem lookup_spec_bytes_full (fs : List Spec.Flow) (hfs : ∀ f ∈ fs, f.priority ≤ 0xffff)
+    (fr : List Nat) (p : PHdr) (port : Nat) (h : Spec.Frame.parse fr = some (p, true)) :
+    Spec.IsBestSig fs (Spec.headers p port) ((Variant.full.entryForPacket (Variant.full.install fs) p port).map (·.data)) :=
+  lookup_spec_wire_full fs hfs p port (frame_complete_regular fr p h)
+
+/-- extraction at the description of a complete frame — superseded tree `Variant.repaired` (ToS still the full byte) -/
 theorem extract_ok_bytes_repaired (fr : List Nat) (p : PHdr) (port : Nat) (h : Spec.Frame.parse fr = some (p, true)) :
     ExtractOk p (Variant.repaired.extract true p (some port)) (Spec.headers p port) :=
   extract_ok_repaired p port (frame_complete_regular fr p h)
 
-/-- **Lookup from bytes**, the code as it stands -/
+/-- lookup at the description of a complete frame — superseded tree `Variant.repaired` -/
 theorem lookup_spec_bytes_repaired (fs : List Spec.Flow) (hfs : ∀ f ∈ fs, f.priority ≤ 0xffff ∧ f.mtch.nwTos % 4 = 0)
     (fr : List Nat) (p : PHdr) (port : Nat) (h : Spec.Frame.parse fr = some (p, true)) (hpt : pktTos p % 4 = 0) :
     Spec.IsBestSig fs (Spec.headers p port)
       ((Variant.repaired.entryForPacket (Variant.repaired.install fs) p port).map (·.data)) :=
   lookup_spec_wire_repaired fs hfs p port (frame_complete_regular fr p h) hpt
-
-/-- **Matching from bytes**, all repairs -/
-theorem matches_iff_bytes_full (r : OfMatch) (fr : List Nat) (p : PHdr) (port : Nat) (h : Spec.Frame.parse fr = some (p, true)) :
-    Variant.full.mww false (Variant.full.ofWire r) (Variant.full.pktMatch p port) = Spec.matchHdr r (Spec.headers p port) :=
-  matches_iff_full r p port (frame_complete_regular fr p h)
-
-/-- **Lookup from bytes**, all repairs -/
-theorem lookup_spec_bytes_full (fs : List Spec.Flow) (hfs : ∀ f ∈ fs, f.priority ≤ 0xffff)
-    (fr : List Nat) (p : PHdr) (port : Nat) (h : Spec.Frame.parse fr = some (p, true)) :
-    Spec.IsBestSig fs (Spec.headers p port) ((Variant.full.entryForPacket (Variant.full.install fs) p port).map (·.data)) :=
-  lookup_spec_wire_full fs hfs p port (frame_complete_regular fr p h)
 
 /-- Ethernet header (dst 02:…:02, src 02:…:01) with type `t`, then `rest` -/
 def ethBytes (t : Nat) (rest : List Nat) : List Nat := [2, 0, 0, 0, 0, 2, 2, 0, 0, 0, 0, 1, t / 256, t % 256] ++ rest
@@ -527,6 +563,15 @@ example : (Spec.Frame.parse (ethBytes 0x0800 (ipUdpBytes 0xc000))).map (fun r =>
 example : (Spec.Frame.parse (ethBytes 0x0800 (ipUdpBytes 0x2000))).map (fun r => ((Spec.headers r.1 1).tpSrc, (Spec.headers r.1 1).tpDst, r.2)) = some (0, 0, true) := by decide
 example : (Spec.Frame.parse (ethBytes 0x0800 (ipUdpBytes 0x8001))).map (fun r => ((Spec.headers r.1 1).tpSrc, (Spec.headers r.1 1).nwProto, r.2)) = some (0, 17, true) := by decide
 example : (Spec.Frame.parse (ethBytes 0x0800 ((ipUdpBytes 0).take 24))).map (·.2) = some false := by decide
+
+/-- IPv4 (IHL 5, DF) + TCP 4000 → 80 with data offset 6: the four octets `opts` are the option area -/
+def ipTcpBytes (opts : List Nat) : List Nat :=
+  [0x45, 0, 0, 44, 0, 0, 0x40, 0, 64, 6, 0, 0, 10, 1, 1, 1, 10, 2, 2, 2,
+   0x0f, 0xa0, 0, 80, 0, 0, 0, 1, 0, 0, 0, 0, 0x60, 0x02, 0, 1, 0, 0, 0, 0] ++ opts
+/-- the TCP ports are the header's first four octets whatever the option area holds: an MSS option, an option of length 0, one that
+    runs past the header, an unknown kind — complete frames all, tp_src 4000, tp_dst 80 -/
+example : ∀ opts ∈ [[2, 4, 5, 0xb4], [2, 0, 5, 0xb4], [2, 40, 5, 0xb4], [0xfd, 4, 1, 2], [1, 1, 1, 2]],
+    (Spec.Frame.parse (ethBytes 0x0800 (ipTcpBytes opts))).map (fun r => ((Spec.headers r.1 1).tpSrc, (Spec.headers r.1 1).tpDst, r.2)) = some (4000, 80, true) := by decide
 
 /-! ## subsumption (used by the non-strict MODIFY / DELETE of C04) -/
 
@@ -684,28 +729,69 @@ theorem irregular_l3_witness :
     (Variant.repaired.ofWire r).matchesWith false (Variant.repaired.fromPacket noL3Frame 1) = false ∧
     Spec.matchHdr r (Spec.headers noL3Frame 1) = true := by decide
 
-/-- what the packet library makes of a RARP frame (EtherType 0x8035): it parses the body with its `arp` class -/
-def rarpFrame : PHdr := { arpFrame 3 with typ := 0x8035 }
-/-- the bytes of such a frame: Ethernet type 0x8035, then hardware type 1, protocol 0x0800, lengths 6 / 4, opcode 3, addresses -/
+/-- RARP frame (EtherType 0x8035) as the packet library describes it: it parses the body with its `arp` class -/
+def rarpFrame : PHdr :=
+  { src := 0x020000000001, dst := 0x020000000002, typ := 0x8035, llc := none, vlan := none, l3 := .arp 3 0x0a000001 0x0a000002 }
+/-- the bytes of that frame: Ethernet type 0x8035, then hardware type 1, protocol 0x0800, lengths 6 / 4, opcode 3, 02:…:01 10.0.0.1 → 10.0.0.2 -/
 def rarpBytes : List Nat :=
   ethBytes 0x8035 [0, 1, 8, 0, 6, 4, 0, 3, 2, 0, 0, 0, 0, 1, 10, 0, 0, 1, 0, 0, 0, 0, 0, 0, 10, 0, 0, 2]
 
-/-- (candidate repair: `fixes/C03_rarp_not_arp.diff`)  Outside `regularG`, but *reachable*: the packet library parses RARP frames (0x8035)
-    with its ARP class, and `from_packet` takes nw_proto / nw_src / nw_dst from any `arp` object, where Figure 4 / Table 3 fill them for
-    dl_type 0x0806 only.  Read off its bytes the frame has no ARP header at all (`Spec.Frame.parse`: nothing behind the Ethernet header,
-    complete), and for that description the extraction theorem leaves the three fields unassigned.  Matching and lookup are not
-    affected (a flow's nw fields are ignored unless its dl_type is 0x0800 / 0x0806, which this frame's is not); what a controller
-    reads from `from_packet` is. -/
-theorem extract_rarp_defect :
-    regularG false rarpFrame = false ∧
-    (Variant.full.pktHeaders true rarpFrame (some 1)).nwProto = some 3 ∧ (Variant.full.pktHeaders true rarpFrame (some 1)).nwSrc = some 0x0a000001 ∧
+/-- **ARP fields only from ARP frames** (`/repo` HEAD, repair C03-K7).  Whatever the packet library hands over — also an `arp` object
+    behind another dl_type, which is how it describes RARP frames —, `from_packet` assigns nw_proto / nw_src / nw_dst from an `arp`
+    object only when the dl_type it has assigned is 0x0806 (Figure 4 / Table 3). -/
+theorem arp_fields_only_for_arp_current (sf : Bool) (src dst typ : Nat) (llc : Option Llc) (vlan : Option Vlan) (op s d : Nat) (ip : Option Nat)
+    (h : (Variant.current.pktHeaders sf ⟨src, dst, typ, llc, vlan, .arp op s d⟩ ip).dlType ≠ some 0x0806) :
+    (Variant.current.pktHeaders sf ⟨src, dst, typ, llc, vlan, .arp op s d⟩ ip).nwProto = none ∧
+    (Variant.current.pktHeaders sf ⟨src, dst, typ, llc, vlan, .arp op s d⟩ ip).nwSrc = none ∧
+    (Variant.current.pktHeaders sf ⟨src, dst, typ, llc, vlan, .arp op s d⟩ ip).nwDst = none := by
+  revert h
+  cases vlan <;> cases llc with
+  | none => simp [Variant.pktHeaders, Variant.current, Variant.full, Variant.repaired, Variant.extract, Variant.arpReached, Variant.clearArp, extractG] <;> (repeat' split) <;> simp_all
+  | some l =>
+    by_cases hs : l.snapOui = some 0
+    · simp [Variant.pktHeaders, Variant.current, Variant.full, Variant.repaired, Variant.extract, Variant.arpReached, Variant.clearArp, extractG, hs] <;> (repeat' split) <;> simp_all
+    · simp [Variant.pktHeaders, Variant.current, Variant.full, Variant.repaired, Variant.extract, Variant.arpReached, extractG, hs]
+
+/-- the RARP frame at `/repo` HEAD: from the library's description (`rarpFrame`) as from the description read off the bytes
+    (`Spec.Frame.parse rarpBytes`: nothing behind the Ethernet header, complete), none of nw_proto / nw_src / nw_dst is assigned —
+    the standard's 12-tuple has zeros there, dl_type 0x8035 -/
+theorem extract_rarp_current :
+    (Variant.current.pktHeaders true rarpFrame (some 1)).nwProto = none ∧ (Variant.current.pktHeaders true rarpFrame (some 1)).nwSrc = none ∧
+    (Variant.current.pktHeaders true rarpFrame (some 1)).nwDst = none ∧ (Variant.current.pktHeaders true rarpFrame (some 1)).dlType = some 0x8035 ∧
     (Spec.headers rarpFrame 1).dlType = 0x8035 ∧ (Spec.headers rarpFrame 1).nwProto = 0 ∧ (Spec.headers rarpFrame 1).nwSrc = 0 ∧
-    (Spec.Frame.parse rarpBytes).map (fun r => (r.1.l3, r.2)) = some (L3.other, true) ∧
-    (∀ p, Spec.Frame.parse rarpBytes = some (p, true) → (Variant.full.pktHeaders true p (some 1)).nwSrc = none) := by
-  refine ⟨by decide, by decide, by decide, by decide, by decide, by decide, by decide, ?_⟩
+    Spec.Frame.parse rarpBytes = some ({ rarpFrame with l3 := .other }, true) ∧
+    Variant.current.pktHeaders true { rarpFrame with l3 := .other } (some 1) = Variant.current.pktHeaders true rarpFrame (some 1) := by
+  decide
+
+/-- IPv4 TCP segment 4000 → 80 whose option area starts with an option of length 0, as the packet library describes it at `/repo` HEAD:
+    `tcp.parse` gives up on the option and drops the whole header, `ipv4.parse` keeps plain bytes — no transport object -/
+def badOptTcpFrame : PHdr :=
+  { src := 0x020000000001, dst := 0x020000000002, typ := 0x0800, llc := none, vlan := none,
+    l3 := .ipv4 0x0a010101 0x0a020202 6 0 false .none }
+
+/-- (open; candidate repair `fixes/C03_tcp_ports_despite_bad_options.diff`)  **A malformed TCP option hides the ports.**  Read off its
+    bytes the frame is a complete TCP segment, tp_src 4000, tp_dst 80 (the standard takes the ports from the header of every unfragmented
+    TCP segment and does not parse options).  The packet library rejects the option (length 0; likewise length 1, a length running past
+    the header, a known kind with the wrong length) and hands `from_packet` no `tcp` object: tp_src / tp_dst stay unassigned, and the
+    flow `nw_proto = 6, tp_dst = 80` — which matches per the standard — does not match in the code.  A sender can thus steer its
+    segments past every flow that names a port.  (The description `badOptTcpFrame` is outside `regularG`; the one read off the bytes is
+    inside, and for it the model assigns the ports: the harness gives the model the library's description for this input class for
+    as long as the probe finds the finding open, so that model and code agree and the oracle — which gets the bytes' — reports it.) -/
+theorem extract_tcp_options_defect :
+    let r : OfMatch := { zeroMatch with wildcards := wc [.dlType, .nwProto, .tpDst] 32 32, dlType := 0x0800, nwProto := 6, tpDst := 80 }
+    regularG false badOptTcpFrame = false ∧
+    (Variant.current.pktHeaders true badOptTcpFrame (some 1)).tpDst = none ∧
+    Variant.current.mww false (Variant.current.ofWire r) (Variant.current.pktMatch badOptTcpFrame 1) = false ∧
+    (Spec.Frame.parse (ethBytes 0x0800 (ipTcpBytes [2, 0, 5, 0xb4]))).map (fun q => (q.1.l3, q.2))
+      = some (L3.ipv4 0x0a010101 0x0a020202 6 0 false (.ports 4000 80), true) ∧
+    (∀ p, Spec.Frame.parse (ethBytes 0x0800 (ipTcpBytes [2, 0, 5, 0xb4])) = some (p, true) →
+      Spec.matchHdr r (Spec.headers p 1) = true ∧ (Variant.current.pktHeaders true p (some 1)).tpDst = some 80 ∧
+      Variant.current.mww false (Variant.current.ofWire r) (Variant.current.pktMatch p 1) = true) := by
+  refine ⟨by decide, by decide, by decide, by decide, ?_⟩
   intro p hp
-  have h : Spec.Frame.parse rarpBytes = some ({ src := 0x020000000001, dst := 0x020000000002, typ := 0x8035, llc := none, vlan := none, l3 := .other }, true) := by
-    decide
+  have h : Spec.Frame.parse (ethBytes 0x0800 (ipTcpBytes [2, 0, 5, 0xb4])) =
+      some ({ src := 0x020000000001, dst := 0x020000000002, typ := 0x0800, llc := none, vlan := none,
+              l3 := .ipv4 0x0a010101 0x0a020202 6 0 false (.ports 4000 80) }, true) := by decide
   rw [h] at hp
   simp only [Option.some.injEq, Prod.mk.injEq, and_true] at hp
   subst hp
@@ -741,6 +827,17 @@ theorem matches_tos_defect :
     (Variant.repaired.ofWire r).matchesWith false (Variant.repaired.fromPacket tcpFrameEcn 1) = false ∧
     Spec.matchHdr r (Spec.headers tcpFrameEcn 1) = true :=
   ⟨by decide, by decide, by decide, by decide⟩
+
+/-- (fixed by C03-K7 — `fixes/C03_rarp_not_arp.diff`, commit 69b444a; it describes `Variant.full`, the tree before that commit)
+    The packet library parses RARP frames (0x8035) with its ARP class, and without the dl_type guard `from_packet` takes nw_proto /
+    nw_src / nw_dst from any `arp` object, where Figure 4 / Table 3 fill them for dl_type 0x0806 only.  (`extract_rarp_current`: the same
+    frame at HEAD.) -/
+theorem extract_rarp_defect :
+    regularG false rarpFrame = false ∧
+    (Variant.full.pktHeaders true rarpFrame (some 1)).nwProto = some 3 ∧ (Variant.full.pktHeaders true rarpFrame (some 1)).nwSrc = some 0x0a000001 ∧
+    (Variant.full.pktHeaders true rarpFrame (some 1)).nwDst = some 0x0a000002 ∧
+    (Spec.headers rarpFrame 1).dlType = 0x8035 ∧ (Spec.headers rarpFrame 1).nwProto = 0 ∧ (Spec.headers rarpFrame 1).nwSrc = 0 ∧
+    (Spec.headers rarpFrame 1).nwDst = 0 := by decide
 
 /-! ## table order -/
 
